@@ -254,6 +254,25 @@ void wide_all(sink& out, std::uint64_t salt)
             o = guarded([&] { u = static_cast<std::uint32_t>(a); });
             out.put(ev("WConvInt").num("i", l2id).raw("l", raw(a)).raw("res", enc(u)).str("out", o).s);
         }
+        // round 10: the 128-bit built-in integers (the boundary between built-in and multi-limb storage) and the narrow ones
+        if constexpr (requires(W w) { static_cast<i128>(w); }) {
+            static int const id = add_inst(out, ev("Inst").str("kind", "WConvInt").str("op", "to_i128").raw("lt", T).raw("rt", desc<i128>()).raw("res_t", desc<i128>()));
+            i128 v = 0;
+            auto o = guarded([&] { v = static_cast<i128>(a); });
+            out.put(ev("WConvInt").num("i", id).raw("l", raw(a)).raw("res", enc(v)).str("out", o).s);
+        }
+        if constexpr (requires(W w) { static_cast<u128>(w); }) {
+            static int const id = add_inst(out, ev("Inst").str("kind", "WConvInt").str("op", "to_u128").raw("lt", T).raw("rt", desc<u128>()).raw("res_t", desc<u128>()));
+            u128 v = 0;
+            auto o = guarded([&] { v = static_cast<u128>(a); });
+            out.put(ev("WConvInt").num("i", id).raw("l", raw(a)).raw("res", enc(v)).str("out", o).s);
+        }
+        if constexpr (requires(W w) { static_cast<std::int8_t>(w); }) {
+            static int const id = add_inst(out, ev("Inst").str("kind", "WConvInt").str("op", "to_i8").raw("lt", T).raw("rt", desc<std::int8_t>()).raw("res_t", desc<std::int8_t>()));
+            std::int8_t v = 0;
+            auto o = guarded([&] { v = static_cast<std::int8_t>(a); });
+            out.put(ev("WConvInt").num("i", id).raw("l", raw(a)).raw("res", enc(v)).str("out", o).s);
+        }
         if constexpr (requires(W w) { static_cast<double>(w); }) {
             double d = 0;
             auto o = guarded([&] { d = static_cast<double>(a); });
@@ -286,6 +305,32 @@ void wide_all(sink& out, std::uint64_t salt)
         W r{};
         auto o = guarded([&] { r = W{v}; });
         out.put(ev("WFromInt").num("i", gid).raw("l", enc(v)).raw("res", o == "ok" ? raw(r) : "[0]").str("out", o).s);
+    }
+    if constexpr (requires(i128 v) { W{v}; }) {
+        int id = add_inst(out, ev("Inst").str("kind", "WFromInt").str("op", "from_i128").raw("lt", desc<i128>()).raw("rt", T).raw("res_t", T));
+        for (i128 v : operands<i128>(thorough() ? 50 : 10, salt + 7, thorough() ? 2 : 1)) {
+            W r{};
+            auto o = guarded([&] { r = W{v}; });
+            out.put(ev("WFromInt").num("i", id).raw("l", enc(v)).raw("res", o == "ok" ? raw(r) : "[0]").str("out", o).s);
+        }
+    }
+    if constexpr (requires(u128 v) { W{v}; }) {
+        int id = add_inst(out, ev("Inst").str("kind", "WFromInt").str("op", "from_u128").raw("lt", desc<u128>()).raw("rt", T).raw("res_t", T));
+        for (u128 v : operands<u128>(thorough() ? 50 : 10, salt + 8, thorough() ? 2 : 1)) {
+            W r{};
+            auto o = guarded([&] { r = W{v}; });
+            out.put(ev("WFromInt").num("i", id).raw("l", enc(v)).raw("res", o == "ok" ? raw(r) : "[0]").str("out", o).s);
+        }
+    }
+    if constexpr (requires(cnl::wide_integer<127> v) { W{v}; }) {
+        // widening from a wide_integer that lives in built-in 128-bit storage
+        using W127 = cnl::wide_integer<127>;
+        int id = add_inst(out, ev("Inst").str("kind", "WFromInt").str("op", "from_w127").raw("lt", desc<i128>()).raw("rt", T).raw("res_t", T));
+        for (i128 v : operands<i128>(thorough() ? 50 : 10, salt + 10, thorough() ? 2 : 1)) {
+            W r{};
+            auto o = guarded([&] { r = W{W127{v}}; });
+            out.put(ev("WFromInt").num("i", id).raw("l", enc(v)).raw("res", o == "ok" ? raw(r) : "[0]").str("out", o).s);
+        }
     }
     if constexpr (requires(double d) { W{d}; }) {
         int hid = add_inst(out, ev("Inst").str("kind", "WFromFloat").str("op", "from_double").raw("lt", desc<double>()).raw("rt", T).raw("res_t", T));
